@@ -20,6 +20,8 @@ Inductive obs :=
 Inductive case :=
 | CDoc (nss : list (ident * text)) (s : snode) (d : dnode) (cfg : nat)
        (wrote : option xelem) (wf : bool) (back : obs) (perms : list (xelem * obs))
+| CRow (nss : list (ident * text)) (lst : snode) (d : dnode) (cfg : nat)      (* selection = an entry of list [lst] *)
+       (wrote : option xelem) (wf : bool) (back : obs) (perms : list (xelem * obs))
 | CEsc (t escaped : text) (decoded : option text)
 | CUnesc (raw : text) (decoded : option text).
 
@@ -53,23 +55,31 @@ Definition in_domain (s : snode) (d : dnode) : bool := shaped s d && texts_ok d.
 Definition back_ok (s : snode) (d : dnode) (o : obs) : bool :=
   match o with ObsOk b => same_tree s b d | _ => false end.
 
+Definition classify_doc (nss : list (ident * text)) (s : snode) (d : dnode) (cfg : nat)
+    (wrote : option xelem) (wf : bool) (back : obs) (perms : list (xelem * obs)) : verdict :=
+  let corr :=
+    oxelem_eqb (model_write nss cfg s d) wrote &&
+    match wrote with
+    | Some x =>
+        res_obs_eqb (model_read nss s x) back &&
+        forallb (fun po => res_obs_eqb (model_read nss s (fst po)) (snd po)) perms
+    | None => true
+    end in
+  let spec :=
+    if in_domain s d then
+      wf && match wrote with Some x => doc_wf x | None => false end &&
+      back_ok s d back && forallb (fun po => back_ok s d (snd po)) perms
+    else true in
+  classify_gen corr spec None.
+
 Definition classify (c : case) : verdict :=
   match c with
-  | CDoc nss s d cfg wrote wf back perms =>
-      let corr :=
-        oxelem_eqb (model_write nss cfg s d) wrote &&
-        match wrote with
-        | Some x =>
-            res_obs_eqb (model_read nss s x) back &&
-            forallb (fun po => res_obs_eqb (model_read nss s (fst po)) (snd po)) perms
-        | None => true
-        end in
-      let spec :=
-        if in_domain s d then
-          wf && match wrote with Some x => doc_wf x | None => false end &&
-          back_ok s d back && forallb (fun po => back_ok s d (snd po)) perms
-        else true in
-      classify_gen corr spec None
+  | CDoc nss s d cfg wrote wf back perms => classify_doc nss s d cfg wrote wf back perms
+  | CRow nss lst d cfg wrote wf back perms =>
+      match lst with
+      | SList _ _ row => classify_doc nss row d cfg wrote wf back perms
+      | _ => ModelViolatesSpec
+      end
   | CEsc t escaped decoded =>
       let corr := text_eqb (escape t) escaped &&
                   otext_eqb (unescape escaped) decoded in
